@@ -22,13 +22,14 @@ from sim.engine import World
 
 TOL = 1e-6  # the library's documented row tolerance (OpenPinch.lib.config.tol); asserted equal at setup
 # Cumulative enthalpy curve columns (written out here on purpose: the oracle must not import the
-# library's own list).  H_hot_net_utility / H_cold_net_utility are declared by the label enum but
-# never written by any code path and are left out.
+# library's own list).  H_hot_net_utility / H_cold_net_utility are declared by the label enum as
+# cumulative enthalpy columns; no pipeline stage writes them, but "any column subset populated" includes
+# them (a caller can fill them through loc / update_row), so they are judged too (defect 2767eef).
 CURVES = [
     "H_hot", "H_cold", "H_net", "H_net_np", "H_net_actual", "H_net_vert", "H_net_pockets", "H_net_assisted",
     "H_net_ut", "H_hot_net", "H_cold_net", "H_net_with_air", "H_net_hp_ut", "H_net_hp_pro", "H_hot_utility",
     "H_cold_utility", "H_hot_balanced", "H_cold_balanced", "H_hot_hp_ut", "H_cold_hp_ut",
-    "H_hot_net_utility_after_hp", "H_cold_net_utility_after_hp",
+    "H_hot_net_utility_after_hp", "H_cold_net_utility_after_hp", "H_hot_net_utility", "H_cold_net_utility",
 ]
 DT = "\N{GREEK CAPITAL LETTER DELTA}T"
 PAIRS = [("mcp_hot_tot", "\N{GREEK CAPITAL LETTER DELTA}H_hot"), ("mcp_cold_tot", "\N{GREEK CAPITAL LETTER DELTA}H_cold"), ("CP_NET", "\N{GREEK CAPITAL LETTER DELTA}H_net")]
@@ -155,9 +156,9 @@ class C08(World):
     ]
     components_stub = []
     fault_kinds = []
-    state_abstraction = "(row count, sorted multiset of insertion classes applied so far [top/middle/bottom/mixed/none], column count, all-NaN mask over the 22 curve columns)"
+    state_abstraction = "(row count, sorted multiset of insertion classes applied so far [top/middle/bottom/mixed/none], column count, all-NaN mask over the 24 curve columns)"
     rule = (
-        "direct runs: one table (real builder from 1-8 random streams, or synthetic with a random subset of the 22 curve columns "
+        "direct runs: one table (real builder from 1-8 random streams, or synthetic with a random subset of the 24 curve columns "
         "populated, others NaN) + a history of 1-12 insertion requests (scalars / lists of 1-6 temperatures placed relative to the "
         "CURRENT rows: interval mid/off-centre points, several per interval, above top, below bottom, exact duplicates, values at "
         "0.5/2 tol of rows, 0.7-tol chains, unsorted, empty, re-issued earlier requests); pipeline runs: one real service call on a "
